@@ -42,10 +42,10 @@ type paSched struct {
 }
 
 var paAcls = map[string]config.ProxyACLConfig{
-	"allow": {Allow: []string{"ta"}},
-	"deny":  {Deny: []string{"td"}},
-	"both":  {Allow: []string{"ta", "td"}, Deny: []string{"td"}},
-	"open":  {},
+	"allow":    {Allow: []string{"ta"}},
+	"deny":     {Deny: []string{"td"}},
+	"both":     {Allow: []string{"ta", "td"}, Deny: []string{"td"}},
+	"open":     {},
 	"stardeny": {Allow: []string{"*"}, Deny: []string{"td"}},
 }
 
